@@ -149,49 +149,60 @@ def selection_algebra(ctx):
     eq_s = ("cmp", "==", ADDR, sval)
     check_match(ctx, ev, "AllSel", dict(classify=lambda a: None, table=lambda n: (True, SELF)))
     check_match(ctx, ev, "NoneSel", dict(classify=lambda a: None, table=lambda n: (False, SELF)))
-    check_match(ctx, ev, "StrSel", dict(
-        classify=lambda a: "eq" if a == eq_s or a == ("cmp", "==", sval, ADDR) else None,
-        table=lambda n: (n["eq"], ctor("AllSel") if n["eq"] else ctor("NoneSel"))))
+    # the three classes that compare the address with stored *values* are decided by evaluating match() on a finite model: concrete stored
+    # values x concrete addresses (strings that occur / do not occur, and the empty address () that consumers use as the leaf probe), against
+    # the specification of §3 computed directly — any spelling of the comparison (==, slicing, prefix tests, isinstance dispatch) is one rule
+    from ..absint import Model, Unknown, Opq
+
+    def model_match(cls, field_term, stored_values, addrs, spec, show):
+        dotted = CORE + cls + ".match"
+        s_ = summarize(ctx, ev, dotted)
+        construct = f"core.{cls}.match"
+        loc = func_loc(ctx, dotted)
+        n, bad = 0, []
+        for stored in stored_values:
+            for addr in addrs:
+                m = Model(evaluator=ev)
+                m.bind(field_term, stored)
+                m.bind(ADDR, addr)
+                try:
+                    got = m.ev(s_.ret)
+                    want_flag, want_rest_term = spec(stored, addr)
+                    want = (want_flag, Model(evaluator=ev).ev(want_rest_term) if isinstance(want_rest_term, tuple) else want_rest_term)
+                except Unknown as e:
+                    raise AnalysisError(f"{construct}: cannot evaluate match({addr!r}) for {show(stored)}: {e}")
+                except Exception as e:   # the modelled code itself fails on this input
+                    bad.append(f"{show(stored)}.match({addr!r}) raises {type(e).__name__}: {e}")
+                    continue
+                n += 1
+                if isinstance(got, list):
+                    got = tuple(got)
+                if not (isinstance(got, tuple) and len(got) == 2 and bool(got[0]) == want[0] and got[1] == want[1]):
+                    bad.append(f"{show(stored)}.match({addr!r}) returns {got!r}, the selection algebra requires {want!r}")
+        if bad:
+            for b in bad[:4]:
+                ctx.bad("ALG-selection", construct, b[:140], b, loc)
+        else:
+            ctx.ok("ALG-selection", construct, f"{n} (stored value, address) cases match the table")
+
+    def T_(*items_):
+        return ("tuple", tuple(C(x) for x in items_))
+    NONE_SEL, ALL_SEL = ctor("NoneSel"), ctor("AllSel")
+    ADDRS = ("a", "b", "zz", ())
+    model_match("StrSel", sval, ("a", "b"), ADDRS, lambda st, ad: (ad == st, ALL_SEL if ad == st else NONE_SEL), lambda st: f"StrSel({st!r})")
     path = ("attr", ("attr", SELF, "t"), "value")
-    p0 = ("idx", path, C(0))
-    ln = call(N("builtins.len"), path)
 
-    def cls_tuple(a):
-        if a == path:
-            return "nonempty"
-        if a in (("cmp", "==", ln, C(1)), ("cmp", "==", C(1), ln)):
-            return "len1"
-        if a in (("cmp", "==", ln, C(0)),):
-            return "empty"
-        if a in (("cmp", "==", ADDR, p0), ("cmp", "==", p0, ADDR)):
-            return "eq"
-        if a in (("cmp", ">", ln, C(1)),):
-            return "gt1"
-        return None
-
-    def tab_tuple(n):
-        nonempty = n.get("nonempty", not n.get("empty", False))
-        if not nonempty:
-            return False, ctor("NoneSel")
-        if not n.get("eq", False):
-            return False, ctor("NoneSel")
-        len1 = n.get("len1", not n.get("gt1", True))
-        if len1:
-            return True, ctor("AllSel")
-        rest = ("idx", path, ("slice", C(1), NONE, NONE))
-        return True, ctor("TupleSel", call(N(CORE + "const"), rest))
-
-    def feas_tuple(n):
-        if "nonempty" in n and not n["nonempty"]:
-            # path empty: other atoms are not evaluated; keep only one representative
-            return not n.get("len1", False) and not n.get("eq", False)
-        return True
-
-    check_match(ctx, ev, "TupleSel", dict(classify=cls_tuple, table=tab_tuple, feasible=feas_tuple))
+    def tuple_spec(pth, ad):
+        if not pth or ad != pth[0]:
+            return False, NONE_SEL
+        if len(pth) == 1:
+            return True, ALL_SEL
+        return True, ctor("TupleSel", call(N(CORE + "const"), T_(*pth[1:])))
+    model_match("TupleSel", path, ((), ("a",), ("a", "b"), ("a", "b", "c"), ("b", "k")), ADDRS, tuple_spec, lambda st: f"TupleSel({st!r})")
     d = ("attr", SELF, "d")
-    check_match(ctx, ev, "DictSel", dict(
-        classify=lambda a: "in" if a == ("cmp", "in", ADDR, d) else None,
-        table=lambda n: (n["in"], ("idx", d, ADDR) if n["in"] else ctor("NoneSel"))))
+    S1, S2 = Opq("sub-selection-1"), Opq("sub-selection-2")
+    model_match("DictSel", d, ({"a": S1, "b": S2}, {}), ADDRS,
+                lambda st, ad: (ad in st, st[ad] if ad in st else NONE_SEL), lambda st: f"DictSel({sorted(st)!r})")
 
     def sub(field, i):
         return ("idx", ("call", ("attr", ("attr", SELF, field), "match"), (ADDR,), ()), C(i))
